@@ -337,7 +337,13 @@ fn c16_create_cursor_kf() {
     assert!(r.is_ok(), "group created");
     let g = ManuallyDrop::new(m.get_group("g"));
     match &*g {
-        Some(g) => assert!(g.get_last_id() == start, "new group's cursor == requested start position"),
+        Some(g) => {
+            assert!(g.get_last_id() == start, "new group's cursor == requested start position");
+            // XGROUP SETID to ANY id, in particular one below the current cursor (re-delivery)
+            let id = any_id();
+            g.set_id(id);
+            assert!(g.get_last_id() == id, "SETID sets the cursor (also backwards)");
+        }
         None => assert!(false, "created group can be looked up"),
     }
 }
